@@ -357,7 +357,7 @@ class C42(Check):
         "a step whose C++ side trips a SYMENGINE_ASSERT is not judged (reported by C03)",
         "container keys containing a NaN double are not model-checked (no strict weak order)",
     ]
-    tiers = {"quick": {"examples": 1200, "shrink_calls": 400}, "thorough": {"examples": 40000, "shrink_calls": 600}}
+    tiers = {"quick": {"examples": 5000, "shrink_calls": 400}, "thorough": {"examples": 150000, "shrink_calls": 800}}
     timeout = 60.0
     case_timeout = 25
 
@@ -443,8 +443,10 @@ class C42(Check):
         if "c" not in r:
             raise RuntimeError("no observation for %s: %r" % (fn, r))
         if key(r["c"]) != key(cpp):
-            raise Violation("%s: C result differs from the C++ API result\n C  : %s\n C++: %s"
-                            % (desc, json.dumps(r["c"])[:1500], json.dumps(cpp)[:1500]), {"obs": r})
+            who = ("Expression wrapper", "core function") if r.get("expr") else ("C", "C++ API")
+            raise Violation("%s: %s result differs from the %s result\n %s: %s\n %s: %s"
+                            % (desc, who[0], who[1], who[0], json.dumps(r["c"])[:1500], who[1],
+                               json.dumps(cpp)[:1500]), {"obs": r})
         # (the serialised bytes embed object addresses as cereal ids, so basic_dumps and
         # Basic::dumps need not agree byte for byte; the loads round trip above is the observable)
         if "kind" in r and r["kind"] in ("vec", "set", "map", "vi"):
